@@ -263,3 +263,150 @@ def case_shape(draw, max_extent=6, max_levels=3, **kw):
     case = {"spec": spec, "lo_mode": mode}
     case.update(rt)
     return case
+
+
+# --------------------------------------------------------------------------
+# D_occ / D_flat: occupancy partitioning and flattening (C03)
+
+
+def holders(expr, var):
+    return [f["t"] for t in expr["terms"] for f in t["factors"] if "t" in f and any(var in S.iexpr_vars(ie) for ie in f["idx"])]
+
+
+@st.composite
+def size_token(draw, name, lo, hi, sizes, prob_symbolic=4):
+    val = draw(st.integers(lo, hi))
+    if draw(st.integers(0, prob_symbolic - 1)) == 0:
+        sizes[name] = val
+        return name
+    return str(val)
+
+
+@st.composite
+def occ_stack(draw, rank, extent, leaders, sizes, allow_shape=True, base=None):
+    """[uniform_shape]? uniform_occupancy{1,2}; returns directive list"""
+    base = base or rank
+    nshape = draw(st.sampled_from([0, 0, 1])) if allow_shape else 0
+    nocc = draw(st.sampled_from([1, 1, 2]))
+    n = nshape + nocc
+    dirs = []
+    for i in range(n):
+        nm = base + str(n - 1 - i) if draw(st.booleans()) else "sz_" + base.lower() + str(i)
+        if i < nshape:
+            dirs.append("uniform_shape(%s)" % draw(size_token(nm, 1, extent + 1, sizes)))
+        else:
+            dirs.append("uniform_occupancy(%s.%s)" % (draw(st.sampled_from(leaders)), draw(size_token(nm, 1, 4, sizes))))
+    return dirs
+
+
+@st.composite
+def case_occ(draw, max_extent=6, **kw):
+    kw.setdefault("allow_take", False)
+    kw.setdefault("allow_output_only", False)
+    kw.setdefault("max_terms", 1)
+    spec = draw(spec_plain(**kw))
+    expr = spec["exprs"][0]
+    rt = draw(runtime(spec, max_extent=max_extent))
+    vs = [v.upper() for v in S.expr_vars(expr)]
+    cand = [v.upper() for v in input_carried_vars(expr)]
+    chosen = draw(subset(cand, min_size=1 if cand else 0))
+    parts, groups = [], []
+    nocc = 0
+    for r in vs:
+        if r in chosen:
+            if nocc == 0 or draw(st.booleans()):
+                dirs = draw(occ_stack(r, rt["extents"][r], holders(expr, r.lower()), rt["sizes"]))
+                nocc += 1
+            else:
+                dirs, sizes = draw(shape_stack(r, rt["extents"][r], 2))
+                rt["sizes"].update(sizes)
+            parts.append([r, dirs])
+            groups.append(levels_of(r, len(dirs)))
+        else:
+            groups.append([r])
+    spec["partitioning"] = {"Z": parts} if parts else {}
+    if draw(st.integers(0, 5)) == 0 or not groups:
+        spec["loop_order"] = {}
+        mode = "omitted"
+    else:
+        spec["loop_order"] = {"Z": draw(interleave(groups))}
+        mode = "ordered"
+    case = {"spec": spec, "lo_mode": mode, "family": "occ"}
+    case.update(rt)
+    return case
+
+
+@st.composite
+def case_flat(draw, max_extent=6, **kw):
+    kw.setdefault("allow_take", False)
+    kw.setdefault("allow_output_only", False)
+    kw.setdefault("max_terms", 1)
+    kw.setdefault("allow_rank0", False)
+    spec = draw(spec_plain(**kw))
+    expr = spec["exprs"][0]
+    rt = draw(runtime(spec, max_extent=max_extent))
+    vs = [v.upper() for v in S.expr_vars(expr)]
+    tens = [f for f in expr["terms"][0]["factors"] if "t" in f and len(f["idx"]) >= 2]
+    case = {"spec": spec, "family": "flat"}
+    if not tens:
+        spec["loop_order"] = {}
+        case.update(rt)
+        case["lo_mode"] = "omitted"
+        return case
+    T = draw(st.sampled_from(tens))
+    tr = [ie[0][1].upper() for ie in T["idx"]]
+    k = draw(st.integers(2, min(3, len(tr))))
+    flat = list(draw(st.permutations(tr)))[:k]
+    parts = []
+    pre = {}       # rank -> levels above the flattened bottom level
+    names = []
+    for r in flat:
+        if draw(st.integers(0, 2)) == 0:
+            n = draw(st.sampled_from([1, 1, 2]))
+            dirs = []
+            for i in range(n):
+                dirs.append("uniform_shape(%s)" % draw(size_token(r + str(n - 1 - i), 1, rt["extents"][r] + 1, rt["sizes"])))
+            parts.append([r, dirs])
+            pre[r] = levels_of(r, n)[:-1]
+            names.append(r + "0")
+        else:
+            pre[r] = []
+            names.append(r)
+    fname = "".join(names)
+    parts.append(["(" + ", ".join(names) + ")", ["flatten()"]])
+    flevels = [fname]
+    if draw(st.booleans()):
+        hs = [f["t"] for f in expr["terms"][0]["factors"] if "t" in f and
+              all(any(r.lower() in S.iexpr_vars(ie) for ie in f["idx"]) for r in flat)]
+        nocc = draw(st.sampled_from([1, 1, 2]))
+        dirs = []
+        for i in range(nocc):
+            dirs.append("uniform_occupancy(%s.%s)" % (draw(st.sampled_from(hs)),
+                                                      draw(size_token("sz_f" + str(i), 1, 5, rt["sizes"]))))
+        parts.append([fname, dirs])
+        flevels = levels_of(fname, nocc)
+    # other ranks: optionally shape / occupancy partitioned
+    groups = []
+    others = [r for r in vs if r not in flat]
+    for r in others:
+        if r.lower() in input_carried_vars(expr) and draw(st.integers(0, 3)) == 0:
+            if draw(st.booleans()):
+                dirs, sizes = draw(shape_stack(r, rt["extents"][r], 2))
+                rt["sizes"].update(sizes)
+            else:
+                dirs = draw(occ_stack(r, rt["extents"][r], holders(expr, r.lower()), rt["sizes"]))
+            parts.append([r, dirs])
+            groups.append(levels_of(r, len(dirs)))
+        else:
+            groups.append([r])
+    # the flattened rank's levels come after every upper level of its constituents
+    chain = []
+    pres = [pre[r] for r in flat if pre[r]]
+    chain = draw(interleave(pres)) + flevels if pres else flevels
+    groups.append(chain)
+    spec["partitioning"] = {"Z": parts}
+    spec["loop_order"] = {"Z": draw(interleave(groups))}
+    case["lo_mode"] = "ordered"
+    case["flat"] = names
+    case.update(rt)
+    return case
